@@ -38,12 +38,8 @@ func renderQuery(o *obligation, withModel bool, extra []string) string {
 	collectAtoms(o.goal, needed)
 	var keep []*T
 	isDef := func(t *T) (string, bool) {
-		if t.op == "=" && len(t.args) == 2 && t.args[0].isAtom() && strings.Contains(t.args[0].op, "!") {
-			if c.defNames[t.args[0].op] {
-				return t.args[0].op, true
-			}
-		}
-		return "", false
+		n, ok := c.defAsserts[t]
+		return n, ok
 	}
 	for _, a := range o.pc {
 		if _, d := isDef(a); !d {
@@ -99,6 +95,9 @@ func renderQuery(o *obligation, withModel bool, extra []string) string {
 	}
 	if c.usesIx {
 		sb.WriteString("(declare-fun ix (Int Int) Int)\n(assert (forall ((o Int) (k Int)) (! (= (ix o k) (+ o k)) :pattern ((ix o k)))))\n")
+	}
+	if c.usesBits {
+		sb.WriteString(bitAxioms)
 	}
 	for _, f := range c.facts {
 		if needed[f.sym] {
@@ -236,7 +235,7 @@ func discharge(obls []*obligation, dir string, timeoutS int, workers int) {
 					continue
 				}
 				r := runSolvers(f, 1, "z3-5.1.0/noauto")
-				if r.status != "unsat" && r.status != "sat" {
+				if r.status != "unsat" && r.status != "sat" && !o.expectSat {
 					r = runSolvers(f, timeoutS, "")
 				}
 				o.status = r.status
@@ -268,3 +267,17 @@ func discharge(obls []*obligation, dir string, timeoutS int, workers int) {
 	close(ch)
 	wg.Wait()
 }
+
+// Abstract bit functions used in int mode for single-bit operations with a symbolic
+// bit index. bitof(v,n) is bit n of the non-negative integer v, setbit(v,n,b) is v with
+// bit n forced to b. The axioms are facts of binary arithmetic; B1, B2, B5 and the range
+// facts are also proved for 8/16-bit vectors as lemmas (see contracts of package modbus).
+const bitAxioms = `(declare-fun bitof (Int Int) Bool)
+(declare-fun setbit (Int Int Bool) Int)
+(assert (forall ((v Int) (n Int) (b Bool)) (! (=> (>= n 0) (= (bitof (setbit v n b) n) b)) :pattern ((setbit v n b)))))
+(assert (forall ((v Int) (n Int) (m Int) (b Bool)) (! (=> (not (= n m)) (= (bitof (setbit v n b) m) (bitof v m))) :pattern ((bitof (setbit v n b) m)))))
+(assert (forall ((n Int)) (! (not (bitof 0 n)) :pattern ((bitof 0 n)))))
+(assert (forall ((v Int) (n Int) (b Bool)) (! (=> (and (<= 0 v) (< v 256) (<= 0 n) (< n 8)) (and (<= 0 (setbit v n b)) (< (setbit v n b) 256))) :pattern ((setbit v n b)))))
+(assert (forall ((v Int) (n Int) (b Bool)) (! (=> (and (<= 0 v) (< v 65536) (<= 0 n) (< n 16)) (and (<= 0 (setbit v n b)) (< (setbit v n b) 65536))) :pattern ((setbit v n b)))))
+(assert (forall ((v Int) (n Int) (b Bool)) (! (=> (= (bitof v n) b) (= (setbit v n b) v)) :pattern ((setbit v n b)))))
+`
